@@ -27,8 +27,8 @@ SLOTS = [
     ('invoke-interface', 0x72, 3, 'm'), ('sget-object', 0x62, 2, 'f'), ('invoke-super/range', 0x75, 3, 'm'),
 ]
 DEFAULTS = {  # concrete operand of every slot when it is not symbolic (by identity, resolved per file)
-    0: ('LA;', 'a1', 'I'), 1: ('LB;', 'b1', 'I'), 2: ('LB;', 'g', 'V', ()), 3: ('LA;', 'v1', 'V', ()), 4: 's-one', 5: 'LB;',
-    6: 'Ljava/lang/Object;', 7: ('LB;', 'b2', 'I'), 8: ('LA;', 'm2', 'V', ()), 9: 's-two', 10: ('LB;', 'b2', 'I'),
+    0: ('LA;', 'a1', 'I'), 1: ('LA;', 'a2', 'I'), 2: ('LB;', 'g', 'V', ()), 3: ('LA;', 'v1', 'V', ()), 4: 's-one', 5: 'LB;',
+    6: 'Ljava/lang/Object;', 7: ('LA;', 'a2', 'I'), 8: ('LA;', 'm2', 'V', ()), 9: 's-two', 10: ('LA;', 'a1', 'I'),
     11: ('Ljava/lang/String;', 'length', 'I', ()), 12: ('Ljava/lang/System;', 'out', 'Ljava/io/PrintStream;'),
     13: ('Ljava/lang/Object;', '<init>', 'V', ()),
 }
@@ -66,7 +66,7 @@ def classes(split=None):
     rv = lambda P: [0x000e]
 
     def code_h(P):       # LB;->h calls LA;->m2 and reads LA;->a2 : a second caller for the symmetry checks
-        return [0x0071, P.method('LA;', 'm2', 'V', ()), 0x0000, 0x0060, P.field('LA;', 'a2', 'I'), 0x001a, P.string('s-one'), 0x000e]
+        return [0x0071, P.method('LA;', 'm2', 'V', ()), 0x0000, 0x0060, P.field('LB;', 'b1', 'I'), 0x001a, P.string('s-one'), 0x000e]
     A = Cls('LA;', sfields=[Fld('a1', 'I', 9), Fld('a2', 'I', 9)],
             dmethods=[Mth('m1', 'V', (), 9, Code(2, 0, 1, code_m1)), Mth('m2', 'V', (), 9, Code(0, 0, 0, rv))],
             vmethods=[Mth('v1', 'V', (), 1, Code(1, 1, 0, rv))])
@@ -192,7 +192,7 @@ def expected(operands):
         else:
             (news if kind == 'new-instance' else consts).append(('LA;', M1, tg, off))
     calls.append(('LB;', H, ('LA;', 'm2', 'V', ()), 0))
-    reads.append(('LB;', H, ('LA;', 'a2', 'I'), 6))
+    reads.append(('LB;', H, ('LB;', 'b1', 'I'), 6))
     strings.append(('LB;', H, 's-one', 10))
     return dict(calls=calls, reads=reads, writes=writes, strings=strings, news=news, consts=consts)
 
@@ -255,15 +255,17 @@ def judge(which, snap, exp):
             k = fkey(f)
             got = snap['field_lookup'].get(k)
             w = want.get(k, {'r': [], 'w': []})
+            cross = 'CROSS: ' if any(x[0] != f[0] for x in w['r'] + w['w']) else ''
             if got is None:
                 bad.append('no FieldAnalysis for the defined field %s' % k)
                 continue
             if got[0] != sorted(w['r']) or got[1] != sorted(w['w']):
-                bad.append('field %s: reads/writes %r, bytecode has %r' % (k, got, [sorted(w['r']), sorted(w['w'])]))
+                bad.append(cross + 'field %s: reads/writes %r, bytecode has %r' % (k, got, [sorted(w['r']), sorted(w['w'])]))
         names = [f[0] for f in snap['fields']]
         dups = sorted(set(n for n in names if names.count(n) > 1))
         if dups:
-            bad.append('more than one FieldAnalysis for %s' % dups)
+            crossed = {fkey(tg) for kind_, lst_ in (('r', exp['reads']), ('w', exp['writes'])) for cc, _c, tg, _o in lst_ if tg[0] != cc}
+            bad.append(('CROSS: ' if set(dups) <= crossed else '') + 'more than one FieldAnalysis for %s' % dups)
         for kind, lst, key in (('r', exp['reads'], 'xref_read'), ('w', exp['writes'], 'xref_write')):
             for caller in set(c for _, c, _, _ in lst):
                 w = sorted([fkey(tg), off] for _, c, tg, off in lst if c == caller and tg in DEFINED_FIELDS)
@@ -328,6 +330,12 @@ def resolve(P, i, k):
     return {'f': lambda: tuple(P.f_list[k]), 'm': lambda: tuple(P.m_list[k]), 's': lambda: P.s_list[k], 't': lambda: P.t_list[k]}[tab]()
 
 
+def cross_region(idx, P):
+    """a symbolic field operand of LA;->m1 selects a field that LB; defines"""
+    return z3.Or([e == k for i, e in idx.items() if SLOTS[i][3] == 'f'
+                  for k, ff in enumerate(P.f_list) if tuple(ff) in DEFINED_FIELDS and ff[0] != 'LA;'] + [z3.BoolVal(False)])
+
+
 def setup():
     dex = common.dexmod()
     analysis = common.analysismod()
@@ -374,8 +382,8 @@ def job(jc, spec):
             continue
         ops = {i: (resolve(P, i, vals[i]) if i in vals else DEFAULTS[i]) for i in range(len(SLOTS))}
         bad_all = judge(which, snap, expected(ops))
-        known = [b for b in bad_all if b.startswith('ARRAY: ')]
-        bad = [b for b in bad_all if not b.startswith('ARRAY: ')]
+        known = [b for b in bad_all if b.startswith(('ARRAY: ', 'CROSS: '))]
+        bad = [b for b in bad_all if not b.startswith(('ARRAY: ', 'CROSS: '))]
         # the operands are pinned on the path by the table lookups (checked), so the concrete comparison covers the path
         jc.obligations(eng, pc, {'operands pinned on the path (harness)': pinned, 'cross references': z3.BoolVal(not bad)}, ext,
                        label=label, what='%s: ' + (bad[0] if bad else ''))
@@ -383,6 +391,10 @@ def job(jc, spec):
             region = z3.Or([e == k for i, e in idx.items() if SLOTS[i][3] == 'm'
                             for k, mm in enumerate(P.m_list) if prim_array(mm[0])] + [z3.BoolVal(False)])
             jc.obligation(eng, pc, z3.BoolVal(not known), ext, {'c13_primitive_array_receiver': region}, label=label + ':array receiver',
+                          what=known[0] if known else '')
+        if which == 'C14':
+            region = cross_region(idx, P)
+            jc.obligation(eng, pc, z3.BoolVal(not known), ext, {'c14_accessor_class': region}, label=label + ':cross-class access',
                           what=known[0] if known else '')
     eng.partition_guard()
     jc.sample(dict(group=group, symbolic_slots=[SLOTS[i][0] for i in GROUPS[group]], paths=eng.st.paths))
@@ -493,7 +505,7 @@ def job16(jc, spec):
                 continue
             s1, s2, s3 = r
             diff = snap_diff(s1, s2) or snap_diff(s1, s3)
-            jc.obligation(eng, pc, z3.BoolVal(not diff), ext, label=label,
+            jc.obligation(eng, pc, z3.BoolVal(not diff), ext, {'c14_accessor_class': cross_region(idx, P1)}, label=label,
                           what='split/ordered analysis differs from the single-DEX analysis: %s' % (diff or ''))
         eng.partition_guard()
     finally:
